@@ -7,6 +7,8 @@ import (
 	"fmt"
 	"os"
 	"path/filepath"
+	"strings"
+	"sync"
 	"time"
 
 	"github.com/sheerbytes/sheerbytes/internal/transfer"
@@ -31,15 +33,51 @@ func XferSpecial(args []string) {
 	shard := fs.Int("shard", 0, "shard")
 	shards := fs.Int("shards", 1, "shards")
 	large := fs.Bool("large", true, "include the files beyond 4 GiB")
+	groups := fs.String("groups", "prepop,manychunks,manyfiles,large", "comma separated: prepop manychunks manyfiles large rechunk symlink onestream geometry largemeta largetorn")
 	fs.Parse(args)
+	installHooks()
 	res := &Result{Extra: map[string]any{}}
 	outcomes := map[string]int{}
 	base, _ := os.MkdirTemp("", "xsp-")
 	defer os.RemoveAll(base)
 	n := 0
+	on := func(g string) bool {
+		for _, x := range strings.Split(*groups, ",") {
+			if x == g {
+				return true
+			}
+		}
+		return false
+	}
+	mine := func() bool { n++; return (n-1)%*shards == *shard }
+	if on("rechunk") {
+		specialRechunk(res, outcomes, base, *seed, mine)
+	}
+	if on("symlink") {
+		specialSymlink(res, outcomes, base, *seed, mine)
+	}
+	if on("onestream") {
+		specialOneStream(res, outcomes, base, *seed, mine)
+	}
+	if on("geometry") {
+		specialGeometry(res, outcomes, base, *seed, mine)
+	}
+	for _, mode := range []string{"largemeta", "largetorn"} {
+		if on(mode) {
+			for _, cs := range []uint32{transfer.DefaultChunkSize, 1 << 20} {
+				if !mine() {
+					continue
+				}
+				specialLarge(res, outcomes, filepath.Join(base, fmt.Sprintf("L%d", n)), cs, mode)
+			}
+		}
+	}
 	// (1) prepopulated output directories
 	tree := []xfer.FileSpec{{Rel: "a.bin", Size: 100}, {Rel: "sub/b.bin", Size: 64}, {Rel: "sub/empty.dat", Size: 0}, {Rel: "c.txt", Size: 5000}, {Rel: "sub/deep/d.bin", Size: 33}}
 	for _, chunk := range []uint32{32, 64, 4096} {
+		if !on("prepop") {
+			break
+		}
 		for _, resume := range []bool{false, true} {
 			for _, noRoot := range []bool{false, true} {
 				for _, streams := range []int{1, 2} {
@@ -84,7 +122,7 @@ func XferSpecial(args []string) {
 		}
 	}
 	// (1b) one file of many chunks read by several workers at once (the workers share the open source file)
-	for rep := 0; rep < 12; rep++ {
+	for rep := 0; rep < 12 && on("manychunks"); rep++ {
 		n++
 		if (n-1)%*shards != *shard {
 			continue
@@ -101,7 +139,7 @@ func XferSpecial(args []string) {
 	}
 	// (1c) many small files over several streams: FileBegin / FileEnd / FileDone records of different files
 	// are written to the one control stream by different goroutines
-	for rep := 0; rep < 10; rep++ {
+	for rep := 0; rep < 10 && on("manyfiles"); rep++ {
 		n++
 		if (n-1)%*shards != *shard {
 			continue
@@ -121,7 +159,7 @@ func XferSpecial(args []string) {
 		judgeHealthy(res, outcomes, "many files", "many-small-files", cfg, o, err)
 	}
 	// (2) beyond 4 GiB
-	if *large {
+	if *large && on("large") {
 		for _, cs := range []uint32{transfer.DefaultChunkSize, 1 << 20} {
 			n++
 			if (n-1)%*shards != *shard {
@@ -163,7 +201,14 @@ func judgeHealthy(res *Result, outcomes map[string]int, label, tree string, cfg 
 }
 
 func largeFileRun(dir string, chunkSize uint32) (string, map[string]any) {
-	detail := map[string]any{"chunk_size": chunkSize}
+	return largeFileRunMode(dir, chunkSize, "")
+}
+
+// largeFileRunMode: mode "" as described above; "largetorn": the metadata marks everything up to and including the first chunk
+// that starts at the 4 GiB mark, and that chunk is torn on disk (C06: detected by hash and repaired);
+// with every mode the metadata left on disk is compared with the file (detail["metadata_claims_wrongly"]).
+func largeFileRunMode(dir string, chunkSize uint32, mode string) (string, map[string]any) {
+	detail := map[string]any{"chunk_size": chunkSize, "mode": mode}
 	srcDir := filepath.Join(dir, "big")
 	outDir := filepath.Join(dir, "out")
 	if err := os.MkdirAll(srcDir, 0o755); err != nil {
@@ -227,7 +272,18 @@ func largeFileRun(dir string, chunkSize uint32) (string, map[string]any) {
 		return "trouble", map[string]any{"why": err.Error()}
 	}
 	dstPath := filepath.Join(destRoot, "big.img")
-	if err := writeSparse(dstPath, head, mid); err != nil {
+	marked := done
+	dstRegions := []region{head, mid}
+	if mode == "largetorn" {
+		marked = done + 2
+		torn := region{tail[1].off, append([]byte(nil), tail[1].data...)}
+		for i := len(torn.data) / 2; i < len(torn.data); i++ {
+			torn.data[i] = 0xEE
+		}
+		dstRegions = append(dstRegions, tail[0], torn)
+		detail["torn_chunk"], detail["torn_chunk_offset"] = done+1, torn.off
+	}
+	if err := writeSparse(dstPath, dstRegions...); err != nil {
 		return "trouble", map[string]any{"why": err.Error()}
 	}
 	sc, err := transfer.CreateSidecar(transfer.SidecarPath(outDir, m.Root, transfer.VerifSidecarID(item)), item.ID, item.Size, chunkSize)
@@ -237,9 +293,10 @@ func largeFileRun(dir string, chunkSize uint32) (string, map[string]any) {
 	if sc.TotalChunks != total {
 		return "trouble", map[string]any{"why": fmt.Sprintf("sidecar has %d chunks, expected %d", sc.TotalChunks, total)}
 	}
-	for i := uint32(0); i < done; i++ {
+	for i := uint32(0); i < marked; i++ {
 		sc.MarkComplete(i)
 	}
+	detail["chunks_marked_complete"] = marked
 	if err := sc.Flush(); err != nil {
 		return "trouble", map[string]any{"why": err.Error()}
 	}
@@ -284,9 +341,286 @@ func largeFileRun(dir string, chunkSize uint32) (string, map[string]any) {
 		check(fmt.Sprintf("chunk done+%d", k), r.off, len(r.data))
 	}
 	check("around 2^32", int64(1)<<32-4096, 8192)
+	// the metadata left on disk against the file: chunks it marks, among those whose content is known
+	if lsc, lerr := transfer.LoadSidecar(transfer.SidecarPath(outDir, m.Root, transfer.VerifSidecarID(item))); lerr == nil && lsc.ChunkSize == chunkSize {
+		isSet := map[int]bool{}
+		for _, k := range transfer.VerifSidecarBits(lsc) {
+			isSet[k] = true
+		}
+		var wrong []int
+		for _, k := range []uint32{0, 1, done, done + 1, done + 2, done + 3} {
+			if !isSet[int(k)] {
+				continue
+			}
+			ln := int(chunkSize)
+			if k == done+3 {
+				ln = tailLen
+			}
+			want, got := make([]byte, ln), make([]byte, ln)
+			src.ReadAt(want, int64(k)*int64(chunkSize))
+			dst.ReadAt(got, int64(k)*int64(chunkSize))
+			if !bytes.Equal(want, got) {
+				wrong = append(wrong, int(k))
+			}
+		}
+		if len(wrong) > 0 {
+			detail["metadata_claims_wrongly"] = wrong
+		}
+	}
 	if len(bad) > 0 {
 		detail["regions_that_differ"] = bad
 		return "differs", detail
 	}
 	return "identical", detail
+}
+
+
+// ---- more input regions outside the grid ---------------------------------------------------------
+
+// specialRechunk: the output directory holds the leftovers of an interrupted attempt that used ANOTHER
+// chunk size (the host was restarted with a different --chunk-size): a partly written file and resume
+// metadata (written with the real Sidecar API) whose bitmap has holes, as several data streams leave
+// it.  Pairs with equal and with different chunk counts.  Judged for three properties:
+//   C01  both sides report success => identical tree
+//   C05  whatever metadata is on disk afterwards marks only chunks whose bytes (in the metadata's own
+//        geometry) equal the source
+//   C19  metadata the resumed transfer works with has the chunk size / count of that transfer
+func specialRechunk(res *Result, outcomes map[string]int, base string, seed int64, mine func() bool) {
+	const size = 1000
+	pairs := [][2]uint32{{400, 450}, {450, 400}, {150, 200}, {200, 150}, {64, 70}, {100, 1000}, {1000, 100}, {334, 500}, {500, 334}}
+	for pi, pr := range pairs {
+		for _, streams := range []int{1, 2} {
+			for _, tail := range []uint32{0, 1} {
+				if !mine() {
+					continue
+				}
+				a, b := pr[0], pr[1]
+				dir := filepath.Join(base, fmt.Sprintf("r%d_%d_%d", pi, streams, tail))
+				src := filepath.Join(dir, "src", "tree")
+				if err := xfer.MakeTree(src, []xfer.FileSpec{{Rel: "e.bin", Size: size}, {Rel: "small.bin", Size: 10}}, seed+int64(pi)); err != nil {
+					panic(err)
+				}
+				out := filepath.Join(dir, "out")
+				os.MkdirAll(out, 0o755)
+				m, _, _ := xfer.Scan(src, false)
+				var item manifest.FileItem
+				for _, it := range m.Items {
+					if it.RelPath == "e.bin" {
+						item = it
+					}
+				}
+				srcBytes, _ := os.ReadFile(filepath.Join(src, "e.bin"))
+				// the earlier attempt (chunk size a): every chunk but the second and the last one made it
+				totalA := uint32((size + int64(a) - 1) / int64(a))
+				partial := make([]byte, size)
+				sp := transfer.SidecarPath(out, "", transfer.VerifSidecarID(item))
+				sc, err := transfer.CreateSidecar(sp, item.ID, item.Size, a)
+				if err != nil {
+					res.AddDrift(map[string]any{"why": "sidecar: " + err.Error()})
+					continue
+				}
+				var marked []uint32
+				for k := uint32(0); k < totalA; k++ {
+					if (k == 1 && totalA >= 2) || (k == totalA-1 && totalA > 3) {
+						continue
+					}
+					lo, hi := int(k)*int(a), int(k+1)*int(a)
+					if hi > size {
+						hi = size
+					}
+					copy(partial[lo:hi], srcBytes[lo:hi])
+					sc.MarkComplete(k)
+					marked = append(marked, k)
+				}
+				sc.Flush()
+				os.WriteFile(filepath.Join(out, "e.bin"), partial, 0o644)
+				var hmu sync.Mutex
+				began := false
+				extraHook = func(name string, x, y uint64, s string) {
+					if name == "recv.filebegin" {
+						hmu.Lock()
+						began = true
+						hmu.Unlock()
+					}
+				}
+				cfg := xfer.Config{Transport: []string{"mock", "vquic"}[pi%2], Conns: 1, Streams: streams, ChunkSize: b, Resume: true, NoRootDir: true, VerifyTail: tail,
+					Seed: seed + int64(pi), Watchdog: 8 * time.Second}
+				o, err := xfer.Run(cfg, src, out)
+				extraHook = nil
+				res.Behaviours++
+				res.Steps++
+				res.Distinct++
+				replay := map[string]any{"scenario": "leftovers of an attempt with another chunk size", "earlier_chunk_size": a, "earlier_marked": marked, "cfg": cfg, "outcome": o}
+				label := "rechunk"
+				if totalA == uint32((size+int64(b)-1)/int64(b)) {
+					label = "rechunk (equal chunk count)"
+				}
+				switch {
+				case err != nil:
+					res.AddDrift(map[string]any{"why": err.Error()})
+					continue
+				case o.Hung:
+					outcomes[label+": hung"]++
+					res.AddViolation(map[string]any{"property": "C03", "kind": "hang", "tree": "stale-geometry"}, replay)
+				case o.SendOK && o.RecvOK && !o.TreeEqual:
+					outcomes[label+": differs"]++
+					res.AddViolation(map[string]any{"property": "C01", "kind": "both_succeed_tree_differs", "tree": "stale-geometry"}, replay)
+				case o.SendOK && o.RecvOK:
+					outcomes[label+": identical"]++
+				default:
+					outcomes[label+": failed loudly"]++
+				}
+				// the metadata now on disk
+				if lsc, lerr := transfer.LoadSidecar(sp); lerr == nil {
+					got, _ := os.ReadFile(filepath.Join(out, "e.bin"))
+					var wrong []int
+					for _, k := range transfer.VerifSidecarBits(lsc) {
+						lo, hi := k*int(lsc.ChunkSize), (k+1)*int(lsc.ChunkSize)
+						if hi > size {
+							hi = size
+						}
+						if lo >= size || hi > len(got) || !bytes.Equal(got[lo:hi], srcBytes[lo:hi]) {
+							wrong = append(wrong, k)
+						}
+					}
+					if len(wrong) > 0 && lsc.FileID == item.ID && lsc.FileSize == item.Size {
+						replay["metadata"] = map[string]any{"chunk_size": lsc.ChunkSize, "total": lsc.TotalChunks, "claims_wrongly": wrong}
+						res.AddViolation(map[string]any{"property": "C05", "kind": "metadata_claims_chunk_not_in_file", "tree": "stale-geometry"}, replay)
+					}
+					hmu.Lock()
+					b0 := began
+					hmu.Unlock()
+					wantTotal := uint32((size + int64(b) - 1) / int64(b))
+					if b0 && (lsc.ChunkSize != b || lsc.TotalChunks != wantTotal) {
+						replay["metadata_geometry"] = map[string]any{"chunk_size": lsc.ChunkSize, "total": lsc.TotalChunks, "transfer_chunk_size": b, "transfer_total": wantTotal}
+						res.AddViolation(map[string]any{"property": "C19", "kind": "metadata_chunk_count_disagrees_with_the_transfer", "tree": "stale-geometry"}, replay)
+					}
+				}
+			}
+		}
+	}
+}
+
+// specialSymlink: symbolic links to regular files inside the hosted tree are listed as files; what
+// arrives must be the target's bytes at the target's length.
+func specialSymlink(res *Result, outcomes map[string]int, base string, seed int64, mine func() bool) {
+	trees := [][]xfer.FileSpec{
+		{{Rel: "real/data.bin", Size: 5000}, {Rel: "current/latest.bin", Link: "../real/data.bin"}, {Rel: "top.lnk", Link: "real/data.bin"}, {Rel: "z.bin", Size: 70}},
+		{{Rel: "real/data.bin", Size: 5000}, {Rel: "real/tiny", Size: 3}, {Rel: "current/latest.bin", Link: "../real/data.bin"},
+			{Rel: "top.lnk", Link: "real/tiny"}, {Rel: "real/a-rather-long-link-name-for-a-tiny-target.lnk", Link: "tiny"}, {Rel: "z.bin", Size: 70}},
+	}
+	for ci, chunk := range []uint32{64, 4096, 64, 4096} {
+		tree := trees[ci/2]
+		for _, sp := range []bool{false, true} {
+			for _, resume := range []bool{false, true} {
+				if !mine() {
+					continue
+				}
+				dir := filepath.Join(base, fmt.Sprintf("s%d_%v_%v", ci, sp, resume))
+				src := filepath.Join(dir, "src", "tree")
+				if err := xfer.MakeTree(src, tree, seed+int64(ci)); err != nil {
+					res.AddDrift(map[string]any{"why": "cannot create symlinks: " + err.Error()})
+					return
+				}
+				cfg := xfer.Config{Transport: []string{"mock", "vquic"}[ci%2], Conns: 1, Streams: 2, ChunkSize: chunk, Resume: resume, ScanPaths: sp, Seed: seed, Watchdog: 8 * time.Second}
+				o, err := xfer.Run(cfg, src, filepath.Join(dir, "out"))
+				res.Behaviours++
+				res.Distinct++
+				judgeHealthy(res, outcomes, "symlinks to files", "symlinks-to-files", cfg, o, err)
+			}
+		}
+	}
+}
+
+// specialOneStream: one connection, one stream (thru host --total-streams 1) and files on both sides
+// of the scheduler's small-file threshold (4 MiB).
+func specialOneStream(res *Result, outcomes map[string]int, base string, seed int64, mine func() bool) {
+	trees := [][]xfer.FileSpec{
+		{{Rel: "big.bin", Size: 5<<20 + 17}},
+		{{Rel: "s1", Size: 100}, {Rel: "big.bin", Size: 4<<20 + 1}, {Rel: "s2", Size: 0}, {Rel: "mid.bin", Size: 1 << 20}},
+		{{Rel: "a/huge.bin", Size: 9 << 20}, {Rel: "a/huge2.bin", Size: 6 << 20}},
+	}
+	for ti, tree := range trees {
+		for _, chunk := range []uint32{0, 1 << 20} {
+			for _, resume := range []bool{false, true} {
+				if !mine() {
+					continue
+				}
+				dir := filepath.Join(base, fmt.Sprintf("o%d_%d_%v", ti, chunk, resume))
+				src := filepath.Join(dir, "src", "tree")
+				if err := xfer.MakeTree(src, tree, seed+int64(ti)); err != nil {
+					panic(err)
+				}
+				cfg := xfer.Config{Transport: "mock", Conns: 1, Streams: 1, ChunkSize: chunk, Resume: resume, Seed: seed, Watchdog: 8 * time.Second}
+				o, err := xfer.Run(cfg, src, filepath.Join(dir, "out"))
+				res.Behaviours++
+				res.Distinct++
+				judgeHealthy(res, outcomes, "one stream", "one-stream-files-above-small-threshold", cfg, o, err)
+			}
+		}
+	}
+}
+
+// specialGeometry (C19): real transfers over (file size, chunk size) pairs far outside the grid's small
+// chunk sizes - chunks of several MiB up to 64 MiB, sizes around multiples of the chunk and around the
+// 8 / 16 MiB marks.  The tiles the sender read and the offsets the receiver wrote are judged through
+// their effect: both sides succeed and the bytes differ <=> the tiles did not cover the file exactly.
+func specialGeometry(res *Result, outcomes map[string]int, base string, seed int64, mine func() bool) {
+	type pair struct {
+		size  int64
+		chunk uint32
+	}
+	pairs := []pair{{20<<20 + 1234, 12 << 20}, {16 << 20, 16 << 20}, {16<<20 + 1, 16 << 20}, {24<<20 - 1, 8<<20 + 1}, {9 << 20, 64 << 20}, {33 << 20, 11 << 20},
+		{3<<20 + 5, 1<<20 + 3}, {17 << 20, 8 << 20}, {12<<20 + 7, 0}, {1 << 20, 1<<20 - 1}}
+	for pi, pr := range pairs {
+		if !mine() {
+			continue
+		}
+		dir := filepath.Join(base, fmt.Sprintf("g%d", pi))
+		src := filepath.Join(dir, "src", "tree")
+		if err := xfer.MakeTree(src, []xfer.FileSpec{{Rel: "g.bin", Size: pr.size}, {Rel: "other", Size: 9}}, seed+int64(pi)); err != nil {
+			panic(err)
+		}
+		cfg := xfer.Config{Transport: "mock", Conns: 1, Streams: 1 + pi%3, ChunkSize: pr.chunk, Resume: pi%2 == 1, Seed: seed, Watchdog: 10 * time.Second}
+		o, err := xfer.Run(cfg, src, filepath.Join(dir, "out"))
+		res.Behaviours++
+		res.Distinct++
+		replay := map[string]any{"scenario": "large chunk sizes", "file_size": pr.size, "cfg": cfg, "outcome": o}
+		switch {
+		case err != nil:
+			res.AddDrift(map[string]any{"why": err.Error()})
+		case o.Hung:
+			outcomes["large chunks: hung"]++
+			res.AddViolation(map[string]any{"property": "C03", "kind": "hang", "tree": "large-chunk-sizes"}, replay)
+		case o.SendOK && o.RecvOK && !o.TreeEqual:
+			outcomes["large chunks: differs"]++
+			res.AddViolation(map[string]any{"property": "C19", "kind": "chunks_read_and_written_do_not_tile_the_file", "tree": "large-chunk-sizes"}, replay)
+			res.AddViolation(map[string]any{"property": "C01", "kind": "both_succeed_tree_differs", "tree": "large-chunk-sizes"}, replay)
+		case o.SendOK && o.RecvOK:
+			outcomes["large chunks: identical"]++
+		default:
+			outcomes["large chunks: failed"]++
+			res.AddViolation(map[string]any{"property": "C03", "kind": "healthy_transfer_failed", "tree": "large-chunk-sizes", "sendErr": trunc(o.SendErr), "recvErr": trunc(o.RecvErr)}, replay)
+		}
+		os.RemoveAll(dir)
+	}
+}
+
+
+func specialLarge(res *Result, outcomes map[string]int, dir string, cs uint32, mode string) {
+	kind, detail := largeFileRunMode(dir, cs, map[string]string{"largemeta": "", "largetorn": "largetorn"}[mode])
+	os.RemoveAll(dir)
+	res.Behaviours++
+	res.Distinct++
+	outcomes[mode+": "+kind]++
+	if kind == "trouble" {
+		res.AddDrift(detail)
+		return
+	}
+	if w, ok := detail["metadata_claims_wrongly"]; ok {
+		res.AddViolation(map[string]any{"property": "C05", "kind": "metadata_claims_chunk_not_in_file", "tree": "file-beyond-4GiB"}, map[string]any{"detail": detail, "chunks": w})
+	}
+	if mode == "largetorn" && kind == "differs" {
+		res.AddViolation(map[string]any{"property": "C06", "kind": "damaged_last_complete_chunk_not_repaired", "tree": "file-beyond-4GiB"}, detail)
+	}
 }
